@@ -625,6 +625,13 @@ pub fn c08_scenarios(ns: &[u64], waits: &[WaitK]) -> Vec<Scn> {
                     ];
                     out.push(s);
                 }
+                // the sender was cloned and the original dropped: the remaining
+                // handle is in multi-writer mode with a writer count of 1 and
+                // falls back to the single-writer path on its next send
+                let mut s = Scn::new("c08-recv-vs-send-from-downgraded-sender", cfg);
+                s.prefix = vec![opd(CloneH, S0, S1), op(DropH, S0)];
+                s.threads = vec![vec![opv(TrySend, S1, 1)], vec![op(Recv, R0)]];
+                out.push(s);
                 // two consumers of one stream each take one value and leave;
                 // the producer sends exactly two and keeps its handle
                 let mut s = Scn::new("c08-two-consumers-one-each", cfg);
@@ -1505,6 +1512,23 @@ pub fn c18_scenarios(ns: &[u64]) -> Vec<Scn> {
             for st in [St::Full, St::One] {
                 let fams: Vec<(&str, Vec<Op>, Vec<Vec<Op>>)> = vec![
                     ("add-stream", vec![opd(CloneH, R0, R1)], vec![vec![opd(AddStream, R1, 9), op(DropH, 9)]]),
+                    // the parent moves between add_stream's snapshot and its list
+                    // swap: the new stream is visible at a stale position for a while
+                    (
+                        "add-stream+sibling-recv",
+                        vec![opd(CloneH, R0, R1), opd(CloneH, R0, R2)],
+                        vec![vec![opd(AddStream, R1, 9), op(DropH, 9)], vec![op(TryRecv, R2)]],
+                    ),
+                    // ... and a further send is accepted meanwhile, so that the stale
+                    // position is more than a lap behind the head
+                    (
+                        "add-stream+sibling-recv-then-send",
+                        vec![opd(CloneH, R0, R1), opd(CloneH, R0, R2), opd(CloneH, S0, S2)],
+                        vec![
+                            vec![opd(AddStream, R1, 9), op(DropH, 9)],
+                            vec![op(TryRecv, R2), opv(TrySend, S2, 31)],
+                        ],
+                    ),
                     ("unsub-side", vec![opd(AddStream, R0, R1)], vec![vec![op(Unsub, R1)]]),
                     ("convert", vec![opd(AddStream, R0, R1)], vec![vec![op(IntoSingle, R1), op(IntoMulti, R1)]]),
                     ("clone-drop", vec![opd(CloneH, R0, R1)], vec![vec![opd(CloneH, R1, 9), op(DropH, R1)]]),
@@ -1522,6 +1546,9 @@ pub fn c18_scenarios(ns: &[u64]) -> Vec<Scn> {
                     for probe in ["send1", "send2", "recv"] {
                         if probe == "recv" && fname.starts_with("last-receiver") {
                             continue; // the prober would use the leaving handle
+                        }
+                        if fname == "add-stream+sibling-recv-then-send" && (probe == "recv" || st == St::One) {
+                            continue; // the window only exists for a sender on a full ring
                         }
                         let mut s = Scn::new(&name(&format!("c18-solo-vs-{}[{:?}]", fname, st), probe), cfg);
                         s.prefix = pre.clone();
